@@ -193,6 +193,19 @@ def extra_checks(rng, tier, notes):
                                                             else None for x in (tot_out, tot_in, inside.broadcast_like(tot_in))])
             bad = inside & (tot_out != tot_in)
             cols_checked += int(inside.sum())
+            # the bins are the VALUES of `target`, however it is packaged: a DataArray without a
+            # coordinate, or labelled by something else (the edge number), bins the same way
+            for pack in ({"target_nocoord": True}, {"target_labels": "index"}):
+                g2, da2, target2, kw2, _ = K8.build_grid_call({**case, "target_kind": "arr", "target_dim": None, **pack})
+                with warnings.catch_warnings():
+                    warnings.simplefilter("ignore")
+                    r2 = g2.transform(da2, "Z", target2, **kw2)
+                r2 = r2.rename({r2.dims[-1]: "__new__"}) if r2.dims[-1] != newdim else r2.rename({newdim: "__new__"})
+                r1 = r.rename({newdim: "__new__"})
+                if set(r2.dims) != set(r1.dims) or not np.array_equal(r2.transpose(*r1.dims).values, r1.values, equal_nan=True):
+                    out.append(({**case, **pack}, {"as_given": r.values.tolist(), "repackaged": r2.values.tolist()},
+                                f"the same bin edges packaged as a DataArray ({pack}) are binned differently"))
+                    break
             if bad.any():
                 out.append(({k: v for k, v in case.items()}, {"sum_bins": tot_out.tolist(), "sum_cells": tot_in.tolist()},
                             "Grid.transform(method='conservative') does not conserve although the column's "
@@ -201,4 +214,59 @@ def extra_checks(rng, tier, notes):
             out.append((case, {"err": type(e).__name__ + ": " + str(e)[:200]},
                         f"Grid.transform(method='conservative') raised {type(e).__name__} on a well-posed call"))
     notes.append(f"conservation through Grid.transform checked on {done} calls, {cols_checked} in-span columns")
+    out.extend(awkward_values(rng, tier, notes))
+    return out
+
+
+def awkward_values(rng, tier, notes):
+    """Conservation for target_data that is not exactly representable in single precision (a
+    density around 1027, a time in seconds), with data held as float32, float64 or integers:
+    the totals agree to within 1e-8 of the column's absolute content (the arithmetic is
+    inexact here, so this is a tolerance check, not an exact comparison)."""
+    import warnings
+    import numpy as np
+    import xarray as xr
+    from xgcm import Grid
+    from xgcm import transform as T
+    out = []
+    n = 30 if tier == "quick" else 400
+    for _ in range(n):
+        N, nx = rng.randint(1, 5), rng.randint(1, 3)
+        base = rng.choice([1027.0, 86400.0 * 365, 273.15])
+        theta = np.array([[base + sum(rng.choice([1, 1, 1, -1]) * rng.uniform(0.01, 0.5) for _ in range(k + 1))
+                           for k in range(N + 1)] for _ in range(nx)])
+        lo, hi = float(theta.min()), float(theta.max())
+        inner = sorted(rng.uniform(lo, hi) for _ in range(rng.randint(0, 3)))
+        edges = np.array([lo - rng.choice([0.0, 0.125])] + inner + [hi + rng.choice([0.0, 0.125])])
+        if rng.random() < 0.3:
+            edges = edges[::-1].copy()
+        dtype = rng.choice(["float32", "float64", "int64"])
+        phi = np.array([[rng.randint(-6, 9) for _ in range(N)] for _ in range(nx)]).astype(dtype)
+        rec = {"phi": phi.tolist(), "dtype": dtype, "theta": theta.tolist(), "bins": edges.tolist()}
+        tot_in = phi.astype(float).sum(-1)
+        tol = 1e-8 * (np.abs(phi.astype(float)).sum(-1) + 1.0)
+        try:
+            with warnings.catch_warnings():
+                warnings.simplefilter("ignore")
+                k = T.interp_1d_conservative(phi, theta, edges)
+                ds = xr.Dataset(coords={"zc": np.arange(N) + 0.5, "zo": np.arange(N + 1.0), "x": np.arange(nx)})
+                g = Grid(ds, coords={"Z": {"center": "zc", "outer": "zo"}}, periodic=False, autoparse_metadata=False)
+                da = xr.DataArray(phi, dims=["x", "zc"])
+                td = xr.DataArray(theta, dims=["x", "zo"], name="dens")
+                chunked = rng.random() < 0.4
+                if chunked:
+                    da, td = da.chunk({"x": 1}), td.chunk({"x": 1})
+                r = g.transform(da, "Z", edges, target_data=td, method="conservative")
+                tot_grid = r.sum(r.dims[-1]).transpose("x").values
+            for name, tot in (("interp_1d_conservative", np.asarray(k, dtype=float).sum(-1)), ("Grid.transform", tot_grid)):
+                if not np.all(np.abs(tot - tot_in) <= tol):
+                    out.append(({**rec, "chunked": chunked}, {"via": name, "sum_bins": np.asarray(tot).tolist(),
+                                                                "sum_cells": tot_in.tolist()},
+                                f"{name} does not conserve {dtype} data binned by target_data near {base}: "
+                                f"{np.asarray(tot).tolist()} vs {tot_in.tolist()}"))
+                    break
+        except Exception as e:
+            out.append((rec, {"err": type(e).__name__ + ": " + str(e)[:200]}, "conservative transform raised on a well-posed call"))
+    notes.append(f"{n} calls with target_data not representable in single precision and float32/float64/integer data: "
+                 "totals compared to 1e-8 of the absolute content")
     return out
